@@ -114,7 +114,7 @@ func (e *c13TbtcEnv) run(r *vrep.R, c c13GateCase) {
 	var reached bool
 	var assembled []map[uint8][]byte
 	report := func(kind, what string) {
-		r.ViolationMin("tbtc:"+kind, len(c.Members), "tbtc "+kind+" "+c.String(), what+" [case "+c.String()+"]", c)
+		r.ViolationMin("tbtc:"+c.Gate+":"+kind, len(c.Members), "tbtc "+kind+" "+c.String(), what+" [case "+c.String()+"]", c)
 	}
 	p, stack := vrep.Guard(func() {
 		switch c.Gate {
